@@ -348,7 +348,7 @@ def compactView (mv : MView) : Option (List (Nat × List Int)) :=
   if mv.2.1 then ((mv.1.map ofP).mapM Slot.compact).map (List.map viewS) else some mv.1
 
 def finishO {ν : Type} (d : Option ν) (o : Obs × Bool) : Res ν :=
-  (o.2, o.1.matchView.bind compactView, o.1.runtextpos, d)
+  { err := o.2, groups := o.1.matchView.bind compactView, textpos := o.1.runtextpos, repl := d }
 
 theorem mapM_compact_view (l : List Slot) :
     (l.mapM Slot.compact).map (List.map viewS) = ((l.map (fun s => ofP (viewS s))).mapM Slot.compact).map (List.map viewS) := by
@@ -453,6 +453,40 @@ theorem decodeBuf_spec (a : CallArgs) (b : Pool.Buf) :
     (decodeBuf a b).visible = a.runes := by
   have := a.hn
   simp [decodeBuf, Pool.decode, this, Pool.Buf.visible]
+
+/-! ### a checker for `LiveWF` on concrete lists (used by the non-vacuity examples) -/
+
+def refsBelow : List Int → Nat → Bool
+  | [], _ => true
+  | v :: vs, p => (if v < 0 then decide (-3 - v < (p : Int)) else true) && refsBelow vs (p + 1)
+
+theorem refsBelow_sound : ∀ (l : List Int) (p0 : Nat), refsBelow l p0 = true →
+    ∀ (p : Nat) (v : Int), l[p]? = some v → v < 0 → -3 - v < ((p0 + p : Nat) : Int) := by
+  intro l
+  induction l with
+  | nil => intro p0 _ p v hp; simp at hp
+  | cons x xs ih =>
+    intro p0 h p v hp hv
+    simp only [refsBelow, Bool.and_eq_true] at h
+    cases p with
+    | zero =>
+      simp only [List.getElem?_cons_zero, Option.some.injEq] at hp
+      subst hp
+      have := h.1
+      simp only [hv, if_true, decide_eq_true_eq] at this
+      simpa using this
+    | succ p =>
+      simp only [List.getElem?_cons_succ] at hp
+      have := ih (p0 + 1) h.2 p v hp hv
+      have e : p0 + 1 + p = p0 + (p + 1) := by omega
+      rw [e] at this; exact this
+
+theorem wf_of_check (s : Slot) (h1 : 2 * s.count ≤ s.arr.length) (h2 : s.arr.length ≠ 1)
+    (h3 : refsBelow s.live 0 = true) : s.WF := by
+  refine ⟨⟨h1, h2⟩, ?_⟩
+  intro p v hp hv
+  have := refsBelow_sound s.live 0 h3 p v hp hv
+  simpa using this
 
 /-! ### the record -/
 
